@@ -1157,6 +1157,10 @@ class C01Hooks(Hooks):
                          "it was when the computation last ran" % (i, old, v))
         if changed:
             self.mark(w, i)
+        if self.in_immediate(w):
+            # pulled in the middle of the marking phase of a write: it may have seen a mixture, and the marks of
+            # that same write may still reach it afterwards; the run they cause has its cause in that write
+            self.cause[i] = True
 
     @staticmethod
     def in_immediate(w):
